@@ -64,13 +64,14 @@ def plan(tier, seed):
         gs.append(Group('DTCWTForward[J=%d]' % J, MD.g_dtcwt_forward, (J, 2, -1, 'default'), functions=[(T2, 'DTCWTForward.forward')]))
         gs.append(Group('DTCWTInverse[J=%d]' % J, MD.g_dtcwt_inverse, (J, 2, -1, 'none'), functions=[(T2, 'DTCWTInverse.forward')]))
     gs.append(Group('loaders[COEFF_CACHE]', T.g_loaders, functions=[('dtcwt.coeffs', '_load_from_file')]))
-    gs.append(Group('READS/STATE syntactic scan', P.g_reads))
+    gs.append(Group('READS/STATE syntactic scan', P.g_reads, replay=rp('history_order', family='all')))
     gs.append(Group('canary:write-through-contiguous()-of-an-argument', g_frame_canary, canary=True))
     kinds = ['dwt1d', 'idwt1d', 'dwt2d', 'idwt2d', 'swt', 'dtcwt', 'idtcwt', 'scat', 'scat2']
     jobs = [{'fn': 'purity', 'cfg': {'kind': k}, 'grid': {'x': [0, 1] if dense else [0]}} for k in kinds]
+    jobs += [{'fn': 'history_order', 'cfg': {'family': f}, 'grid': {'x': [0]}} for f in ('dwt1d', 'dwt2d', 'swt', 'dtcwt', 'scat')]
     return {
         'groups': gs,
-        'native': [('bounded.py', [write_jobs('C15', jobs), seed], 'bounded: arguments unchanged, same result after unrelated calls / other instances / autograd on, and from 4 concurrent threads (real modules)')],
+        'native': [('bounded.py', [write_jobs('C15', jobs), seed], 'bounded: arguments unchanged, same result after unrelated calls / other instances / autograd on, and from 4 concurrent threads (real modules); order independence: families of configurations sharing sizes run in three orders in fresh interpreters, bit-identical digests')],
         'level': 'other', 'trusted_base': TRUSTED,
         'assumptions': ASSUMPTIONS + [
             'A-threads: torch primitives are thread-safe on tensors no thread writes; CPython dict insertion is atomic. Thread and history independence are derived from '
